@@ -1207,7 +1207,10 @@ func (v *VMValue) ItemGet(ctx *Context, index *VMValue) *VMValue {
 			rstr := []rune(str)
 
 			rIndex := index.MustReadInt()
-			_index := getClampRealIndex(ctx, rIndex, IntType(len(rstr)))
+			_index := getRealIndex(ctx, rIndex, IntType(len(rstr)))
+			if ctx.Error != nil {
+				return nil
+			}
 
 			newArr := string(rstr[_index : _index+1])
 			return NewStrVal(newArr)
